@@ -164,10 +164,18 @@ func genC04(t *rapid.T) c04Case {
 		cs.Tag, target = applyTag(t, target, parts)
 	}
 	cs.Target = emitYAML(target, nil)
+	styleSeed := 0
+	if rapid.IntRange(0, 2).Draw(t, "styled") == 0 {
+		styleSeed = rapid.IntRange(1, 1<<20).Draw(t, "style")
+	}
 	for _, p := range parts {
-		cs.Parts = append(cs.Parts, emitYAML(p, nil))
+		// the parts may be written in another YAML style (flow collections, anchors and aliases): same files
+		cs.Parts = append(cs.Parts, emitYAMLStyled(p, nil, styleSeed))
 	}
 	cs.Rules = usedSummary(sp.used)
+	if styleSeed != 0 {
+		cs.Rules = append(cs.Rules, "yaml-style-varied")
+	}
 	cs.Shared = sp.used["kv-collision"] > 0 || sp.used["keyed-duplicate"] > 0 || sp.used["ipam-pool-merged"] > 0 || sp.used["logging-merged"] > 0 || sp.used["logging-replaced"] > 0 || cs.Tag != ""
 	for _, k := range []string{"replace", "wholesale", "mapping"} {
 		if sp.used[k] > 0 {
